@@ -41,6 +41,9 @@ ASSUMES = ['spike times non-decreasing and on the sample grid (time*rate exact),
            'binsize = floor(rate*bin) >= 1; 2^-12 <= bin_size, window_size <= 2^12 (np.clip is the identity)',
            'counts below 2^31 (int32 array); firing_rate: bin > 0, duration >= 0 (0/None mean 1), exact float products']
 TIMEOUT = {'quick': 20, 'thorough': 60}
+# the float constants of np.clip(x, 1e-5, 1e5) modelled in PV.C15.ParamsModel (clip_lo_f, clip_hi); C15_clip_constant
+# proves that the first is a float nearest to 10^-5
+assert (1e-5).as_integer_ratio() == (5902958103587057, 2 ** 69) and (1e5).as_integer_ratio() == (100000, 1)
 COQ_HEADER = 'From Coq Require Import QArith.\n'
 
 
